@@ -16,6 +16,7 @@ Definition clean_insert (i : insert) : Prop :=
   else (i_program i && negb (i_immediate i) = false -> i_has_pts i = false /\ i_pts i = 0) /\
        (i_program i = true -> i_components i = []) /\
        (i_program i = false -> i_immediate i = true -> Forall (fun c => c_has_pts c = false /\ c_pts c = 0) (i_components i)) /\
+       (i_program i = false -> i_immediate i = false -> Forall (fun c => c_has_pts c = false -> c_pts c = 0) (i_components i)) /\
        (i_has_duration i = false -> i_duration i = 0 /\ i_auto_return i = false).
 Definition clean_cmd (c : Scte.command) : Prop := match c with CInsert i => clean_insert i | _ => True end.
 Definition clean_desc (d : segdesc) : Prop :=
@@ -26,8 +27,7 @@ Definition clean_desc (d : segdesc) : Prop :=
        (d_has_sub d = true -> d_type d = 52 \/ d_type d = 54) /\
        (d_has_sub d = false -> d_sub_seg_num d = 0 /\ d_sub_segs_expected d = 0).
 Definition clean (st : scte) : Prop :=
-  s_id st = 1 /\ s_stuffing st = 0 /\ clean_cmd (s_cmd st) /\ Forall clean_desc (s_descs st) /\
-  (s_cmd st = CNull -> s_pts st = 0).
+  s_id st = 1 /\ s_stuffing st = 0 /\ clean_cmd (s_cmd st) /\ Forall clean_desc (s_descs st).
 
 Lemma map_id_in {A} (f : A -> A) l : (forall x, In x l -> f x = x) -> map f l = l.
 Proof.
@@ -35,17 +35,17 @@ Proof.
   rewrite H by (left; reflexivity). rewrite IH; [reflexivity|]. intros y Hy. apply H. right. exact Hy.
 Qed.
 
-Lemma expected_logical_cmd c : normal_cmd c -> clean_cmd c -> expected_cmd (logical_cmd c) = c.
+Lemma expected_logical_cmd c : timed_cmd c -> clean_cmd c -> expected_cmd (logical_cmd c) = c.
 Proof.
-  destruct c as [|h p|i]; cbn [normal_cmd clean_cmd logical_cmd expected_cmd]; intros Hn Hc; [reflexivity| |].
-  - destruct Hn as [-> _]. reflexivity.
+  destruct c as [|h p|i]; cbn [timed_cmd clean_cmd logical_cmd expected_cmd]; intros Hn Hc; [reflexivity| |].
+  - subst h. reflexivity.
   - f_equal. destruct i as [eid cancel out prog imm has pts comps hasdur dur auto up an ae].
-    unfold clean_insert, normal_insert, logical_mode, expected_insert in *.
+    unfold clean_insert, logical_mode, expected_insert in *.
     cbn [i_event_id i_cancel i_out i_program i_immediate i_has_pts i_pts i_components i_has_duration i_duration
          i_auto_return i_unique_program_id i_avail_num i_avails_expected] in *.
     destruct cancel; [symmetry; exact Hc|].
-    destruct Hn as (_ & Hb). destruct (Hb eq_refl) as (Ht & Hcs & _). clear Hb.
-    destruct Hc as (C1 & C2 & C3 & C4).
+    specialize (Hn eq_refl). rename Hn into Ht.
+    destruct Hc as (C1 & C2 & C3 & C3t & C4).
     cbn [ib_out ib_mode ib_break ib_unique_program_id ib_avail_num ib_avails_expected].
     assert (Eb1 : match (if hasdur then Some (auto, dur) else None) with Some _ => true | None => false end = hasdur) by (destruct hasdur; reflexivity).
     assert (Eb2 : match (if hasdur then Some (auto, dur) else None) with Some (_, d) => d | None => 0 end = dur)
@@ -55,14 +55,14 @@ Proof.
     rewrite Eb1, Eb2, Eb3.
     destruct prog, imm; cbn [andb negb mode_program mode_immediate mode_time expected_comps st_has st_val] in *.
     + destruct (C1 eq_refl) as [-> ->]. rewrite (C2 eq_refl). reflexivity.
-    + destruct (Ht eq_refl eq_refl) as [-> _]. cbn [logical_stime st_has st_val]. rewrite (C2 eq_refl). reflexivity.
+    + rewrite (Ht eq_refl eq_refl). cbn [logical_stime st_has st_val]. rewrite (C2 eq_refl). reflexivity.
     + destruct (C1 eq_refl) as [-> ->]. f_equal. rewrite map_map. apply map_id_in.
       specialize (C3 eq_refl eq_refl). rewrite Forall_forall in C3. intros [tag h p] Hin.
       destruct (C3 _ Hin) as [E1 E2]. cbn [c_has_pts c_pts c_tag] in *. subst. reflexivity.
     + destruct (C1 eq_refl) as [-> ->]. f_equal. rewrite map_map. apply map_id_in.
-      destruct (Hcs eq_refl) as [Hf _]. rewrite Forall_forall in Hf. intros [tag h p] Hin.
-      destruct (Hf _ Hin) as [_ Hx]. destruct (Hx eq_refl) as [E1 _]. cbn [c_has_pts c_pts c_tag fst snd] in *. subst.
-      reflexivity.
+      specialize (C3t eq_refl eq_refl). rewrite Forall_forall in C3t. intros [tag h p] Hin.
+      specialize (C3t _ Hin). cbn [c_has_pts c_pts c_tag fst snd] in *. destruct h; [reflexivity|].
+      rewrite (C3t eq_refl). reflexivity.
 Qed.
 
 Lemma expected_logical_seg d : normal_desc d -> clean_desc d ->
@@ -129,20 +129,20 @@ Proof.
 Qed.
 
 (* the time a command carries on the wire *)
-Lemma cmd_time_logical c : normal_cmd c -> clean_cmd c ->
+Lemma cmd_time_logical c : timed_cmd c -> clean_cmd c ->
   st_val (cmd_time (logical_cmd c)) = cmd_pts c.
 Proof.
-  destruct c as [|h p|i]; cbn [normal_cmd clean_cmd logical_cmd cmd_time cmd_pts]; intros Hn Hc; [reflexivity| |].
-  - destruct Hn as [-> _]. reflexivity.
+  destruct c as [|h p|i]; cbn [timed_cmd clean_cmd logical_cmd cmd_time cmd_pts]; intros Hn Hc; [reflexivity| |].
+  - subst h. reflexivity.
   - destruct i as [eid cancel out prog imm has pts comps hasdur dur auto up an ae].
-    unfold clean_insert, normal_insert, logical_mode in *.
+    unfold clean_insert, logical_mode in *.
     cbn [i_event_id i_cancel i_out i_program i_immediate i_has_pts i_pts i_components i_has_duration i_duration
          i_auto_return i_unique_program_id i_avail_num i_avails_expected] in *.
     destruct cancel; [inversion Hc; reflexivity|].
-    destruct Hn as (_ & Hb). destruct (Hb eq_refl) as (Ht & _). destruct Hc as (C1 & _).
+    specialize (Hn eq_refl). rename Hn into Ht. destruct Hc as (C1 & _).
     cbn [ib_mode]. destruct prog, imm; cbn [andb negb mode_time st_val] in *;
       try (destruct (C1 eq_refl) as [_ ->]; reflexivity).
-    destruct (Ht eq_refl eq_refl) as [-> _]. reflexivity.
+    rewrite (Ht eq_refl eq_refl). reflexivity.
 Qed.
 
 Lemma expected_pts_of L : si_cmd L <> Null ->
@@ -153,18 +153,18 @@ Theorem decode_encode_clean fs st : decodable fs st -> clean st ->
   new_scte35 (0 :: fst (update_data st)) = Ok (snd (update_data st)).
 Proof.
   intros Hd Hc. rewrite (decode_encode fs st Hd). f_equal.
-  destruct Hd as (Hn & Htid & Henc & Hwfs).
+  destruct Hd as (Hn & Htid & Henc & Hwfs & Htimed).
   pose proof (lengths_ok fs st Hn) as (_ & Hclf & Hlen & Hsl).
   pose proof (encode_canonical fs st Hn) as Hcan.
   pose proof Hn as (_ & Hpv & Hea & Hcw & Htier & Hpts & Hcpts & Hct & Hcmd & Hds & Hother & Hfs & Htot).
-  destruct Hc as (Cid & Cst & Ccmd & Cds & Cnull).
+  destruct Hc as (Cid & Cst & Ccmd & Cds).
   destruct (expected_logical_descs fs (s_descs st) Hfs Hds Cds) as [ED EO].
   unfold expected. unfold update_data in *. cbn [fst snd] in *.
   rewrite Hcan.
   assert (Epts : expected_pts (logical fs st) = s_pts st).
   { destruct (s_cmd st) as [|h p|i] eqn:Ec.
-    - unfold expected_pts, logical, logical0. cbn [with_crc si_cmd]. rewrite Ec. cbn [logical_cmd].
-      symmetry. apply Cnull. reflexivity.
+    - unfold expected_pts, logical, logical0. cbn [with_crc si_cmd si_pts_adj]. rewrite Ec. cbn [logical_cmd cmd_pts].
+      unfold subtract_pts. replace (0 <=? s_pts st) with true by (symmetry; apply N.leb_le; lia). lia.
     - rewrite expected_pts_of by (unfold logical, logical0; cbn [with_crc si_cmd]; rewrite Ec; discriminate).
       unfold logical, logical0. cbn [with_crc si_cmd si_pts_adj]. rewrite <- Ec in *.
       rewrite cmd_time_logical by assumption. apply add_subtract; assumption.
